@@ -42,11 +42,30 @@ type c04Opts struct {
 	// computed from the implementation's own float expression (report.go:138-139)
 	NodeCutoff int64
 	EdgeCutoff int64
+	// glue options (end-to-end layer)
+	NoTrim     bool     // -trim=false
+	SourcePath string   // -source_path
+	TrimPath   string   // -trim_path
+	Legacy     []string // legacy sample-index flags (-inuse_space, -mean_delay, ...), only through parseFlags
+	Via        string   // entry point of the text forms: cli (default) | session | web
+	HasArg     bool     // session: the command carries its own numeric argument (`top 5`)
+	Arg        int
+	Pre        []string // session: extra lines before the command
+	CmdText    bool     // use the `text` command name instead of `top`
 }
 
 func (o c04Opts) term() Term {
 	return L(S(o.Gran), Bool(o.NoInlines), Bool(o.ShowColumns), S(o.SampleIndex), Bool(o.Mean), Bool(o.CallTree),
-		Bool(o.DropNeg), S(o.TagRoot), S(o.TagLeaf), S(o.Format), Bool(o.CumSort), ZI(o.NodeCount), Z(o.NodeCutoff), Z(o.EdgeCutoff))
+		Bool(o.DropNeg), S(o.TagRoot), S(o.TagLeaf), S(o.Format), Bool(o.CumSort), ZI(o.NodeCount), Z(o.NodeCutoff), Z(o.EdgeCutoff),
+		Bool(o.NoTrim), S(o.SourcePath), S(o.TrimPath), Ss(o.Legacy), S(o.Via), Bool(o.HasArg), ZI(o.Arg))
+}
+
+// cmdName is the command as typed (cmd() is the one the shim path uses).
+func (o c04Opts) cmdName() string {
+	if o.Format == "text" && o.CmdText {
+		return "text"
+	}
+	return o.cmd()
 }
 
 func (o c04Opts) cmd() string {
@@ -60,9 +79,20 @@ func (o c04Opts) cmd() string {
 
 func (o c04Opts) assign() [][2]string {
 	a := [][2]string{
-		{"nodecount", strconv.Itoa(o.NodeCount)},
 		{"nodefraction", strconv.FormatFloat(o.NodeFrac, 'g', -1, 64)},
 		{"edgefraction", strconv.FormatFloat(o.EdgeFrac, 'g', -1, 64)},
+	}
+	if o.NodeCount != -1 { // -1: not given, the command's default applies
+		a = append(a, [2]string{"nodecount", strconv.Itoa(o.NodeCount)})
+	}
+	if o.NoTrim {
+		a = append(a, [2]string{"trim", "false"})
+	}
+	if o.SourcePath != "" {
+		a = append(a, [2]string{"source_path", o.SourcePath})
+	}
+	if o.TrimPath != "" {
+		a = append(a, [2]string{"trim_path", o.TrimPath})
 	}
 	b := func(name string, v bool) {
 		if v {
@@ -435,8 +465,38 @@ func c04Generate(rpt *report.Report) string {
 	return b.String()
 }
 
+// c04Text produces the report text of o through the real entry point (driver.PProf: flags, fetch,
+// report, writer), not through the export shim.
+func c04Text(p *profile.Profile, o c04Opts) (string, Term) {
+	txt, err := c04E2E(p, o)
+	if err != nil {
+		return "", c04ErrClass(err)
+	}
+	return txt, nil
+}
+
 func c04Observe(p *profile.Profile, o c04Opts, form string) Term {
 	return c04Guarded(func() Term {
+		switch form {
+		case "top", "tree", "dot", "callgrind", "traces", "webtop":
+			txt, e := c04Text(p, o)
+			if e != nil {
+				return e
+			}
+			switch form {
+			case "top":
+				return parseTop(txt)
+			case "tree":
+				return parseTree(txt)
+			case "dot":
+				return parseDot(txt)
+			case "callgrind":
+				return parseCallgrind(txt)
+			case "traces":
+				return parseTraces(txt)
+			}
+			return c04WebTop(txt)
+		}
 		rpt, err := o.newReport(p)
 		if err != nil {
 			return c04ErrClass(err)
@@ -462,16 +522,6 @@ func c04Observe(p *profile.Profile, o c04Opts, form string) Term {
 				}
 			}
 			return L(S("ok"), Z(rpt.Total()), Z(shown), L(rows...))
-		case "top":
-			return parseTop(c04Generate(rpt))
-		case "tree":
-			return parseTree(c04Generate(rpt))
-		case "dot":
-			return parseDot(c04Generate(rpt))
-		case "callgrind":
-			return parseCallgrind(c04Generate(rpt))
-		case "traces":
-			return parseTraces(c04Generate(rpt))
 		}
 		panic("unknown form " + form)
 	})
@@ -500,6 +550,15 @@ func c04Knobs(r *Rng) Knobs {
 // c04FixUnits drops unit lists whose length differs from the value list (the shared generator can
 // leave a stale NumUnit entry when it draws the same key twice; such a profile cannot be encoded)
 func c04FixUnits(p *profile.Profile) {
+	// sample type names are made distinct: the fetch step (CompatibilizeSampleTypes) merges or
+	// rejects columns with equal names, which is C07's subject, not this one's
+	seenT := map[string]bool{}
+	for i, st := range p.SampleType {
+		for seenT[st.Type] {
+			st.Type = st.Type + strconv.Itoa(i)
+		}
+		seenT[st.Type] = true
+	}
 	for _, s := range p.Sample {
 		for k, us := range s.NumUnit {
 			if len(us) != len(s.NumLabel[k]) {
@@ -676,7 +735,11 @@ func runC04(c *Ctx) {
 	emit := func(gen string, p *profile.Profile, o c04Opts, form string) {
 		in := L(DumpProfile(p), o.term(), S(form), fmtTable(p, o))
 		obs := c04Observe(p, o, form)
-		c.Case(gen, in, obs, c04Nontrivial(p), "form:"+form, "gran:"+o.Gran, fmt.Sprintf("mean:%v", o.Mean),
+		via := o.Via
+		if via == "" {
+			via = "cli"
+		}
+		c.Case(gen, in, obs, c04Nontrivial(p), "form:"+form, "via:"+via, "gran:"+o.Gran, fmt.Sprintf("mean:%v", o.Mean),
 			fmt.Sprintf("calltree:%v", o.CallTree), fmt.Sprintf("tag:%v", o.TagRoot != "" || o.TagLeaf != ""))
 	}
 	// shapes x every granularity x noinlines x mean x every form
@@ -694,6 +757,16 @@ func runC04(c *Ctx) {
 				}
 				o.SampleIndex = PickS(r, []string{"", "0", "1", "cpu", "samples"})
 				emit("shape", p, o, f.form)
+			}
+		}
+	}
+	// the ORDER of tag keys matters (the first tagroot key becomes the new root, the last tagleaf key
+	// the new leaf): keys given in non-alphabetical order (deterministic)
+	{
+		p7 := shapes[7].Copy()
+		for _, f := range []struct{ form, format string }{{"graph", "text"}, {"top", "text"}, {"tree", "tree"}, {"traces", "traces"}} {
+			for _, ks := range [][2]string{{"key,k", ""}, {"", "key,k"}, {"key,k", "k,key"}} {
+				emit("tag-order", p7, c04Opts{Format: f.format, TagRoot: ks[0], TagLeaf: ks[1], SampleIndex: "1"}, f.form)
 			}
 		}
 	}
@@ -734,7 +807,7 @@ func runC04(c *Ctx) {
 		}
 	}
 	// random profiles x sampled option combinations x forms
-	nprof := c.Budget(100, 2000)
+	nprof := c.Budget(70, 2000)
 	for k := 0; k < nprof; k++ {
 		kn := c04Knobs(r)
 		textable := r.P(2, 3)
@@ -756,6 +829,8 @@ func runC04(c *Ctx) {
 			emit("random", p, c04RandomOpts(r, p, f.format), f.form)
 		}
 	}
+	// ---- end-to-end layer: the options the DRIVER interprets, through every entry point ----
+	c04GlueStreams(c, emit)
 	// a profile without sample types
 	p0 := GenProfile(r, c04Knobs(r))
 	c04FixUnits(p0)
@@ -800,3 +875,140 @@ func c04Probe(args []string) {
 		fmt.Printf("=== %s\n%s\n", f, c04Generate(rpt))
 	}
 }
+
+// ---------------------------------------------------------------------------------------------
+// end-to-end layer: glue options
+
+// c04Big: n stacks main > midNNN > leafNNN (2n+1 entries): more entries than the default node limit
+// of graph-style commands, so "explicitly untrimmed" and "limit not given" differ.
+func c04Big(n int) *profile.Profile {
+	p := &profile.Profile{SampleType: []*profile.ValueType{{Type: "cpu", Unit: "count"}}}
+	m := &profile.Mapping{ID: 1, Start: 0x1000, Limit: 0x90000, File: "bin/prog", HasFunctions: true}
+	p.Mapping = []*profile.Mapping{m}
+	loc := func(name string) *profile.Location {
+		id := uint64(len(p.Function) + 1)
+		f := &profile.Function{ID: id, Name: name, SystemName: name, Filename: name + ".go"}
+		p.Function = append(p.Function, f)
+		l := &profile.Location{ID: id, Mapping: m, Address: 0x1000 + 16*id, Line: []profile.Line{{Function: f, Line: int64(id)}}}
+		p.Location = append(p.Location, l)
+		return l
+	}
+	lm := loc("main")
+	for i := 0; i < n; i++ {
+		mid, leaf := loc(fmt.Sprintf("mid%03d", i)), loc(fmt.Sprintf("leaf%03d", i))
+		p.Sample = append(p.Sample, &profile.Sample{Value: []int64{int64(1000 + i)}, Location: []*profile.Location{leaf, mid, lm}})
+	}
+	return p
+}
+
+// c04LegacyProfile: sample types the legacy flags of parseFlags select by name.
+func c04LegacyProfile(r *Rng, heap bool) *profile.Profile {
+	p := c04Shapes()[r.Intn(4)]
+	types := []string{"contentions", "delay"}
+	if heap {
+		types = []string{"alloc_objects", "alloc_space", "inuse_objects", "inuse_space"}
+	}
+	p.SampleType = nil
+	for _, t := range types {
+		p.SampleType = append(p.SampleType, &profile.ValueType{Type: t, Unit: "count"})
+	}
+	for _, s := range p.Sample {
+		s.Value = nil
+		for range types {
+			s.Value = append(s.Value, int64(r.Intn(50))-10)
+		}
+	}
+	return p
+}
+
+func c04GlueStreams(c *Ctx, emit func(gen string, p *profile.Profile, o c04Opts, form string)) {
+	r := c.R
+	textForms := []struct{ form, format string }{{"top", "text"}, {"tree", "tree"}, {"dot", "dot"}, {"callgrind", "callgrind"}, {"traces", "traces"}}
+	// (1) more entries than the default limit: explicit nodecount=0 is untrimmed for every command; a
+	// limit that was not given means 80 for tree/dot and none for top (deterministic part)
+	// (evaluating an 83-entry report inside Coq takes seconds: the cases are spread over the stream
+	// below so that they land in different shards)
+	var bigCases []func()
+	{
+		p := c04Big(41).Copy()
+		for _, f := range []struct{ form, format string }{{"tree", "tree"}, {"dot", "dot"}, {"top", "text"}} {
+			f := f
+			bigCases = append(bigCases, func() { emit("big", p, c04Opts{Format: f.format, NodeCount: 0}, f.form) })
+		}
+		bigCases = append(bigCases,
+			func() { emit("big", p, c04Opts{Format: "text", NodeCount: -1}, "top") },
+			func() { emit("big", p, c04Opts{Format: "tree", NodeCount: 5, NoTrim: true}, "tree") },
+			func() { emit("big", p, c04Opts{Format: "tree", NodeCount: 0, Via: "session"}, "tree") },
+			func() { emit("big", p, c04Opts{Format: "tree", NodeCount: 5, Via: "session", HasArg: true, Arg: 0}, "tree") },
+			func() { emit("big", p, c04Opts{Format: "text", NodeCount: 7, NodeFrac: 0, Via: "web"}, "webtop") })
+	}
+	// (2) option combinations through the three entry points; everything stays untrimmed BY REQUEST
+	pool := append(c04Shapes(), c04CancelShapes()...)
+	for k := 0; k < c.Budget(130, 3000); k++ {
+		if k%16 == 0 && k/16 < len(bigCases) {
+			bigCases[k/16]()
+		}
+		p := pool[r.Intn(len(pool))].Copy()
+		f := textForms[r.Intn(len(textForms))]
+		o := c04RandomOpts(r, p, f.format)
+		o.Via = PickS(r, []string{"cli", "cli", "session", "web"})
+		form := f.form
+		if o.Via == "web" {
+			o.Format, form = "text", "webtop"
+			o.TagRoot, o.TagLeaf = "", ""
+		}
+		switch r.Intn(5) {
+		case 0:
+			o.NodeCount = -1 // not given: 0 for top, 80 for the others (more than these profiles have)
+			if o.Via == "session" && f.format == "text" {
+				o.NodeCount = 0 // an interactive top/text without a count shows 10 entries: C05's stream
+			}
+		case 1:
+			o.NodeCount = 200
+		case 2: // trim=false switches every limit off, whatever the other options say
+			o.NoTrim, o.NodeCount, o.NodeFrac, o.EdgeFrac = true, 1+r.Intn(2), 0.5, 0.5
+		case 3:
+			if o.Via == "session" { // the command's own argument replaces the session's node count
+				o.HasArg, o.Arg, o.NodeCount = true, c04PickInt(r, []int{0, 150}), 1
+			}
+		}
+		if f.format == "text" {
+			o.CmdText = r.Bool()
+		}
+		if o.Via == "session" {
+			o.Pre = []string{"nodefraction=0.9", "edgefraction=0.9", "sample_index=nosuch_zz", "top ((", "top 1 >decoy"}
+			if o.NodeCount != -1 {
+				o.Pre = append(o.Pre, "nodecount=1")
+			}
+		}
+		emit("glue", p, o, form)
+	}
+	// (3) legacy sample-index flags of the command line
+	legacyHeap := []string{"inuse_space", "inuse_objects", "alloc_space", "alloc_objects"}
+	legacyCont := []string{"total_delay", "mean_delay", "contentions"}
+	for k := 0; k < c.Budget(40, 600); k++ {
+		heap := r.Bool()
+		p := c04LegacyProfile(r, heap).Copy()
+		flags := legacyCont
+		if heap {
+			flags = legacyHeap
+		}
+		f := textForms[r.Intn(3)]
+		o := c04Opts{Format: f.format, Gran: PickS(r, c04Grans), Mean: r.P(1, 4)}
+		o.Legacy = []string{PickS(r, flags)}
+		if r.P(1, 3) {
+			o.Legacy = append(o.Legacy, PickS(r, flags))
+		}
+		if r.P(1, 4) {
+			o.SampleIndex = PickS(r, []string{"0", "1", p.SampleType[0].Type})
+		}
+		o.Via = PickS(r, []string{"cli", "web", "session"})
+		form := f.form
+		if o.Via == "web" {
+			o.Format, form = "text", "webtop"
+		}
+		emit("legacy", p, o, form)
+	}
+}
+
+func c04PickInt(r *Rng, l []int) int { return l[r.Intn(len(l))] }
